@@ -24,7 +24,8 @@ LEVEL_TEXT = ("All $not rules of the stated grammar x all listings up to the bou
               "the reference matcher. Exhaustive within bounds.")
 LEVEL_NOTE = "Trusted: mc/refmodel.py $not semantics (exactly one instruction/operand at which the argument has no match)."
 
-ALPHA_I = [("mov", ["%rax", "%rbx"]), ("mov", ["%rbx", "%rax"]), ("push", ["%rax"]), ("ret", [])]
+ALPHA_I = [("mov", ["%rax", "%rbx"]), ("mov", ["%rbx", "%rax"]), ("push", ["%rax"]), ("ret", []),
+           ("rex.W", [])]   # a mnemonic objdump prints that is not a word (also .byte, rex.WRB, ...)
 ALPHA_O = [("mov", ["%rax", "%rbx"]), ("mov", ["%rbx", "%rax"]), ("mov", ["$0x1", "%rax"]),
            ("mov", ["%rax", "%rbx", "%rcx"]), ("mov", ["%rax"]), ("mov", ["%rbx", "$0x1", "%rax"]), ("mov", ["%rax", "%rax"]),
            ("ret", [])]
